@@ -204,7 +204,8 @@ theorem garbage_is_err' (tol : List Str) (resp : Str)
 theorem dial_failure_is_err' {Doc : Type} (env : Env Doc) (tol : List Str) (b : Nat) (u : Url) (cap : Nat)
     (hs : env.serve u = none) :
     (match (get env tol b ({ cap := cap } : Cache Doc) u).res with | .err => True | .ok _ _ => False) := by
-  have hg : ({ cap := cap } : Cache Doc).get u = (none, { cap := cap }) := by simp [Cache.get]
+  have hg : ({ cap := cap } : Cache Doc).get (cacheKey tol u) = (none, { cap := cap }) := by
+    simp [Cache.get]
   unfold get
   rw [hg]
   simp only [hs]
